@@ -273,10 +273,11 @@ func (p *proc) dumpAndKill() string {
 }
 
 var (
-	reFrame   = regexp.MustCompile(`(?m)^([A-Za-z0-9_][^\s]*)\([^()]*\)\n\t`)
-	reDigits  = regexp.MustCompile(`\d+`)
-	rePanic   = regexp.MustCompile(`(?m)^(panic: .*|fatal error: .*)$`)
-	reGorHead = regexp.MustCompile(`(?m)^goroutine \d+ (?:gp=\S+ m=\S+ (?:mp=\S+ )?)?\[([^\]]*)\]:$`)
+	reFrame      = regexp.MustCompile(`(?m)^([A-Za-z0-9_][^\s]*)\([^()]*\)\n\t`)
+	reDigits     = regexp.MustCompile(`\d+`)
+	rePanic      = regexp.MustCompile(`(?m)^(panic: .*|fatal error: .*)$`)
+	reFatalKnown = regexp.MustCompile(`concurrent map [a-z ]+[a-z]|all goroutines are asleep - deadlock!|stack overflow|unlock of unlocked mutex`)
+	reGorHead    = regexp.MustCompile(`(?m)^goroutine \d+ (?:gp=\S+ m=\S+ (?:mp=\S+ )?)?\[([^\]]*)\]:$`)
 )
 
 // crashSignature extracts a structural signature from a Go crash dump: the
@@ -291,6 +292,18 @@ func crashSignature(dump string) (sig, msg string) {
 	msg = m
 	if i := strings.Index(msg, " [recovered]"); i >= 0 {
 		msg = msg[:i]
+	}
+	if strings.HasPrefix(msg, "fatal error:") {
+		// the runtime writes "fatal error: " and the message separately; a log record of another goroutine
+		// may land in between
+		if i := strings.Index(msg, "time="); i >= 0 {
+			msg = strings.TrimSpace(msg[:i])
+		}
+		if msg == "fatal error:" {
+			if k := reFatalKnown.FindString(dump); k != "" {
+				msg = "fatal error: " + k
+			}
+		}
 	}
 	if strings.Contains(dump, "c08 watchdog") || strings.Contains(msg, "out of memory") || strings.Contains(msg, "cannot allocate memory") {
 		return "oom", msg
